@@ -175,6 +175,21 @@ func SMAnswer(a Args) error {
 				dwa = &m2[0]
 			}
 			emit("sm-dwa", int(d[4]), 280, 2001, e2e, hbh, dwa)
+			// further DWRs on the same connection, differing from the first in their flags and ids
+			for j, fl := range []byte{0x80, 0xC0, 0x90, 0xD0} {
+				off := len(s.Conn.Out())
+				d := buildDWR(hbh+uint32(j)+1, e2e^uint32(j), j%2 == 0, peerHost, peerRealm)
+				d[4] = fl
+				s.Conn.Feed(d)
+				s.Conn.WaitOut(off+20, 3*time.Second)
+				s.Conn.WaitReaderBlocked(2 * time.Second)
+				m3, _ := splitMsgs(s.Conn.Out()[off:])
+				var dwa *wireMsg
+				if len(m3) > 0 {
+					dwa = &m3[0]
+				}
+				emit("sm-dwa-seq", int(fl), 280, 2001, hbh+uint32(j)+1, e2e^uint32(j), dwa)
+			}
 		}
 	}
 	for _, k := range kinds {
